@@ -71,35 +71,40 @@ theorem lookupNe_resolved (l : List Layer) : lookupNe l = resolved (l.map (·.ne
 theorem C03_eq_iff (c : Case) (hg : generates c = true) (h : sameClass c.rhs = true) :
     (eqMethod c).1.isTruthy = true ↔
       ∀ f ∈ c.fields, participates f = true → (outcome f).isTruthy = true := by
-  simp only [eqMethod, lookupEq_gen c hg, h, if_true, chain_truthy_iff, List.all_eq_true, List.mem_filter]
+  simp only [eqMethod, eqMethodW, lookupEq_gen c hg, h, if_true, chain_truthy_iff, List.all_eq_true, List.mem_filter]
   constructor
   · intro H f hf hp; exact H f ⟨hf, hp⟩
   · intro H f hf; exact H f hf.1 hf.2
 
+/-- `__ne__` derives from `__eq__`, whichever way the chain is evaluated (with or without faults) -/
+theorem neMethodW_negation (ch : List Field → Res × List String) (c : Case) (hg : generates c = true) :
+    neMethodW ch c = (derive (eqMethodW ch c).1, (eqMethodW ch c).2) := by
+  simp [neMethodW, lookupNe_gen c hg]
+
 /-- **C03_ne_negation**: whatever `__ne__` the ancestors or the class body bring along, `C.__ne__` is
     NotImplemented iff `C.__eq__` is, else the boolean negation — and it compares what `__eq__` compares. -/
 theorem C03_ne_negation (c : Case) (hg : generates c = true) :
-    neMethod c = (derive (eqMethod c).1, (eqMethod c).2) := by
-  simp [neMethod, lookupNe_gen c hg]
+    neMethod c = (derive (eqMethod c).1, (eqMethod c).2) :=
+  neMethodW_negation chain c hg
 
 theorem derive_spec (r : Res) :
-    derive r = (match r with | .NI => .NI | r => Res.ofBool (!r.isTruthy)) := by
+    derive r = (match r with | .NI => .NI | .exc => .exc | r => Res.ofBool (!r.isTruthy)) := by
   cases r <;> rfl
 
-/-- **C03_other_class_notimpl**: any operand of another class — sub- and superclasses included — makes
-    both methods return NotImplemented without comparing anything; the operators are then answered by
-    Python's default (the other operand's own hand-written method if its class resolves one, else identity). -/
-theorem C03_other_class_notimpl (c : Case) (hg : generates c = true) (h : sameClass c.rhs = false) :
-    eqMethod c = (.NI, []) ∧ neMethod c = (.NI, []) ∧ eqOp c = pyDefaultEq c ∧ neOp c = pyDefaultNe c := by
-  have he : eqMethod c = (.NI, []) := by simp [eqMethod, lookupEq_gen c hg, h]
-  have hn : neMethod c = (.NI, []) := by rw [C03_ne_negation c hg, he]; rfl
+/-- operands of another class: nothing is evaluated, so faults cannot matter either -/
+theorem otherClassW (ch : List Field → Res × List String) (c : Case) (hg : generates c = true)
+    (h : sameClass c.rhs = false) :
+    eqMethodW ch c = (.NI, []) ∧ neMethodW ch c = (.NI, []) ∧
+      eqOpW ch c = pyDefaultEq c ∧ neOpW ch c = pyDefaultNe c := by
+  have he : eqMethodW ch c = (.NI, []) := by simp [eqMethodW, lookupEq_gen c hg, h]
+  have hn : neMethodW ch c = (.NI, []) := by rw [neMethodW_negation ch c hg, he]; rfl
   refine ⟨he, hn, ?_, ?_⟩
-  · simp only [eqOp, h, he, reflEq, pyDefaultEq, lookupEq_resolved, dispatch]
+  · simp only [eqOpW, h, he, reflEq, pyDefaultEq, lookupEq_resolved, dispatch]
     cases resolved ((rhsMro c).map (·.eq)) with
     | user o => cases o <;> cases c.rhs == Rhs.sub <;> simp [Res.ofOutcome]
     | absent => cases c.rhs == Rhs.sub <;> simp
     | generated => cases c.rhs == Rhs.sub <;> simp
-  · simp only [neOp, h, hn, reflNe, reflEq, pyDefaultNe, lookupEq_resolved, lookupNe_resolved, dispatch]
+  · simp only [neOpW, h, hn, reflNe, reflEq, pyDefaultNe, lookupEq_resolved, lookupNe_resolved, dispatch]
     cases resolved ((rhsMro c).map (·.ne)) with
     | user o => cases o <;> cases c.rhs == Rhs.sub <;> simp [Res.ofOutcome]
     | absent =>
@@ -114,6 +119,13 @@ theorem C03_other_class_notimpl (c : Case) (hg : generates c = true) (h : sameCl
           simp [Res.ofOutcome, derive, Res.ofBool, Res.isTruthy, Outcome.isTruthy]
       | absent => cases c.rhs == Rhs.sub <;> simp [derive]
       | generated => cases c.rhs == Rhs.sub <;> simp [derive]
+
+/-- **C03_other_class_notimpl**: any operand of another class — sub- and superclasses included — makes
+    both methods return NotImplemented without comparing anything; the operators are then answered by
+    Python's default (the other operand's own hand-written method if its class resolves one, else identity). -/
+theorem C03_other_class_notimpl (c : Case) (hg : generates c = true) (h : sameClass c.rhs = false) :
+    eqMethod c = (.NI, []) ∧ neMethod c = (.NI, []) ∧ eqOp c = pyDefaultEq c ∧ neOp c = pyDefaultNe c :=
+  otherClassW chain c hg h
 
 /-- no class along the right operand's MRO hand-writes a comparison (it resolves `object`'s or generated ones) -/
 def noHandWritten (l : List Layer) : Bool :=
@@ -167,14 +179,27 @@ example : ∃ c, generates c = true ∧ sameClass c.rhs = false ∧ eqOp c = .T 
 
 /-- for operands of the same class the results are a function of the `and` chain over the participating
     fields alone -/
-theorem model_same_class (c d : Case) (hc : generates c = true) (hd : generates d = true)
+theorem roundW_same_class (ch : List Field → Res × List String) (c d : Case)
+    (hc : generates c = true) (hd : generates d = true)
+    (hr : c.rhs = d.rhs) (hs : sameClass c.rhs = true)
+    (hch : ch (c.fields.filter participates) = ch (d.fields.filter participates)) :
+    roundW ch c = roundW ch d := by
+  have hs' : sameClass d.rhs = true := hr ▸ hs
+  have e : eqMethodW ch c = eqMethodW ch d := by
+    simp [eqMethodW, lookupEq_gen, hc, hd, hs, hs', hch]
+  simp [roundW, eqOpW, neOpW, neMethodW_negation, hc, hd, hs, e, ← hr]
+
+theorem roundW_same_class_ch (c : Case) (hg : generates c = true) (hs : sameClass c.rhs = true)
+    (hch : chainF (c.fields.filter participates) = chain (c.fields.filter participates)) :
+    roundF c = round c := by
+  have e : eqMethodW chainF c = eqMethodW chain c := by
+    simp [eqMethodW, lookupEq_gen, hg, hs, hch]
+  simp [roundF, round, roundW, eqOpW, neOpW, neMethodW_negation, hg, hs, e]
+
+theorem round_same_class (c d : Case) (hc : generates c = true) (hd : generates d = true)
     (hr : c.rhs = d.rhs) (hs : sameClass c.rhs = true)
     (hch : chain (c.fields.filter participates) = chain (d.fields.filter participates)) :
-    model c = model d := by
-  have hs' : sameClass d.rhs = true := hr ▸ hs
-  have e : eqMethod c = eqMethod d := by
-    simp [eqMethod, lookupEq_gen, hc, hd, hs, hs', hch]
-  simp [model, eqOp, neOp, C03_ne_negation, hc, hd, hs, e, ← hr]
+    round c = round d := roundW_same_class chain c d hc hd hr hs hch
 
 /-- **C03_nonparticipating_irrelevant** (also: the generated pair shadows the whole MRO; history is
     irrelevant): for operands of the same class, two cases whose eq-participating fields coincide give the
@@ -183,8 +208,9 @@ theorem model_same_class (c d : Case) (hc : generates c = true) (hd : generates 
     were hashed (and cached) before and whichever fields were re-assigned after that. -/
 theorem C03_nonparticipating_irrelevant (c d : Case) (hc : generates c = true) (hd : generates d = true)
     (hr : c.rhs = d.rhs) (hs : sameClass c.rhs = true)
-    (hf : c.fields.filter participates = d.fields.filter participates) : model c = model d :=
-  model_same_class c d hc hd hr hs (by rw [hf])
+    (hf : c.fields.filter participates = d.fields.filter participates) : model c = model d := by
+  simp only [model, roundF, round, roundW_same_class chainF c d hc hd hr hs (by rw [hf]),
+    roundW_same_class chain c d hc hd hr hs (by rw [hf])]
 
 /-- the case with every class fact and all history wiped: plain class, nothing hashed, nothing re-assigned -/
 def bare (c : Case) : Case :=
@@ -223,8 +249,8 @@ theorem chain_hash (fs : List Field) :
 
 /-- **C03_history_irrelevant**: same-class results are those of the bare class with fresh operands. -/
 theorem C03_history_irrelevant (c : Case) (hg : generates c = true) (hs : sameClass c.rhs = true) :
-    model c = model (bare c) :=
-  model_same_class c (bare c) hg (by simp [generates, bare]) rfl hs
+    round c = round (bare c) :=
+  round_same_class c (bare c) hg (by simp [generates, bare]) rfl hs
     (by simp only [bare, filter_hash, chain_hash])
 
 /-! ### the per-field `order=` argument and the metaclass never matter -/
@@ -272,18 +298,18 @@ theorem chain_dropOrder (fs : List Field) (h : ∀ f ∈ fs, (effEq f).isSome = 
 /-- **C03_order_key_irrelevant**: a per-field `order=` argument — True, False or a key function, with any
     outcome the order key would give — never changes `==`/`!=` nor what is compared: only the eq key counts. -/
 theorem C03_order_key_irrelevant (c : Case) (hw : wf c = true) (hs : sameClass c.rhs = true) :
-    model c = model { c with fields := c.fields.map dropOrder } := by
+    round c = round { c with fields := c.fields.map dropOrder } := by
   simp only [wf, Bool.and_eq_true, List.all_eq_true] at hw
   have hv : ∀ f ∈ c.fields, (effEq f).isSome = true := hw.1.1
   have hv' : ∀ f ∈ c.fields.filter participates, (effEq f).isSome = true :=
     fun f hf => hv f (List.mem_filter.1 hf).1
-  exact model_same_class c _ hw.2 (by simpa [generates] using hw.2) rfl hs
+  exact round_same_class c _ hw.2 (by simpa [generates] using hw.2) rfl hs
     (by simp only [filter_dropOrder _ hv, chain_dropOrder _ hv'])
 
 /-- non-vacuity: an order key whose outcome differs from the raw one -/
 example : ∃ f : Field, (effEq f).isSome = true ∧ f.order = .key ∧ f.orderKeyed ≠ f.raw ∧ outcome f = f.raw :=
   ⟨{ name := "a", cmp := .unset, eq := .unset, raw := .F, keyed := .T, sameObj := false, hash := .unset,
-     hashDiffers := false, order := .key, orderKeyed := .T }, by decide⟩
+     hashDiffers := false, order := .key, orderKeyed := .T, fault := .none }, by decide⟩
 
 /-- **C03_class_identity_not_equality**: "the very same class" is identity of class objects: whatever a
     metaclass answers for `==`/`!=` between classes, nothing changes. -/
@@ -334,23 +360,38 @@ theorem filter_sameObj (b : Bool) (fs : List Field) :
     simp only [List.map_cons, List.filter_cons, participates_sameObj]
     split <;> simp_all
 
+theorem chainF_sameObj (b : Bool) (fs : List Field) :
+    chainF (fs.map (fun f => { f with sameObj := b })) = chainF fs := by
+  induction fs with
+  | nil => rfl
+  | cons f rest ih =>
+    have hf : faultOf { f with sameObj := b } = faultOf f := rfl
+    cases rest with
+    | nil => simp [chainF, hf]
+    | cons g rest =>
+      simp only [List.map_cons] at ih ⊢
+      simp only [chainF, ih, hf, outcome_sameObj, tag_sameObj]
+
 /-- **C03_uses_eq_not_identity**: whether two field values are the same object never matters;
     in particular a value unequal to itself (NaN) makes `x == x` false. -/
 theorem C03_uses_eq_not_identity (c : Case) (b : Bool) :
     model { c with fields := c.fields.map (fun f => { f with sameObj := b }) } = model c := by
-  have e : eqMethod { c with fields := c.fields.map (fun f => { f with sameObj := b }) } = eqMethod c := by
-    simp only [eqMethod, mroC, classLayer, generates, filter_sameObj, chain_sameObj]
-    rfl
-  simp only [model, neMethod, eqOp, neOp, e]
+  have e : ∀ ch, (ch = chain ∨ ch = chainF) →
+      eqMethodW ch { c with fields := c.fields.map (fun f => { f with sameObj := b }) } = eqMethodW ch c := by
+    intro ch hch
+    rcases hch with h | h <;> subst h
+    · simp only [eqMethodW, mroC, classLayer, generates, filter_sameObj, chain_sameObj]; rfl
+    · simp only [eqMethodW, mroC, classLayer, generates, filter_sameObj, chainF_sameObj]; rfl
+  simp only [model, round, roundF, roundW, neMethodW, eqOpW, neOpW, e chain (Or.inl rfl), e chainF (Or.inr rfl)]
   rfl
 
 theorem nan_witness :
     (model { fields := [{ name := "a", cmp := .unset, eq := .unset, raw := .F, keyed := .F,
                           sameObj := true, hash := .unset, hashDiffers := false,
-                          order := .unset, orderKeyed := .T }],
+                          order := .unset, orderKeyed := .T, fault := .none }],
              rhs := .identical, clsEq := .unset, autoDetect := false, own := ⟨.absent, .absent⟩,
              ancestors := [], subLayer := ⟨.absent, .absent⟩, foreignLayer := ⟨.absent, .absent⟩,
-             metaLayer := ⟨.absent, .absent⟩, hist := ⟨false, false, false, [], []⟩ }).eqOp = .F := by decide
+             metaLayer := ⟨.absent, .absent⟩, hist := ⟨false, false, false, [], []⟩ }).again.eqOp = .F := by decide
 
 theorem upToFirstFalsy_mem (fs : List Field) :
     ∀ t ∈ upToFirstFalsy fs, ∃ f ∈ fs, tag f = t := by
@@ -366,11 +407,8 @@ theorem upToFirstFalsy_mem (fs : List Field) :
         exact ⟨g, List.mem_cons_of_mem _ hg, hgt⟩
     · simp at ht; exact ⟨f, List.mem_cons_self, ht.symm⟩
 
-/-- **C03_model_meets_spec**: whenever attrs generates equality, the model satisfies the declarative
-    specification (no known-deviation hypothesis is needed for this property). -/
-theorem C03_model_meets_spec (c : Case) (hw : wf c = true) : spec c (model c) = true := by
-  have hg : generates c = true := by
-    simp only [wf, Bool.and_eq_true] at hw; exact hw.2
+/-- a round without faults meets the per-round specification -/
+theorem round_meets_spec (c : Case) (hg : generates c = true) : specRound c (round c) = true := by
   by_cases h : sameClass c.rhs = true
   · have hni := chain_ne_NI (c.fields.filter participates)
     have hne := chain_ne_exc (c.fields.filter participates)
@@ -385,19 +423,189 @@ theorem C03_model_meets_spec (c : Case) (hw : wf c = true) : spec c (model c) = 
       exact List.any_eq_true.2 ⟨f, hf, by simp [hft]⟩
     rcases r with ⟨v, tr⟩
     simp only at hni hne ht htr
-    have he : eqMethod c = (v, tr) := by simp [eqMethod, lookupEq_gen c hg, h, hr]
-    simp only [spec, h, if_true, model, eqOp, neOp, C03_ne_negation c hg, he, allEqual, htr]
+    have he : eqMethodW chain c = (v, tr) := by simp [eqMethodW, lookupEq_gen c hg, h, hr]
+    simp only [specRound, h, if_true, round, roundW, eqOpW, neOpW, neMethodW_negation chain c hg, he,
+      allEqual, htr]
     rw [← ht]
     cases v <;> simp_all [Res.isTruthy, Res.ofBool, derive]
   · have h' : sameClass c.rhs = false := by simpa using h
-    obtain ⟨h1, h2, h3, h4⟩ := C03_other_class_notimpl c hg h'
-    simp [spec, h', model, h1, h2, h3, h4]
+    obtain ⟨h1, h2, h3, h4⟩ := otherClassW chain c hg h'
+    simp [specRound, h', round, roundW, h1, h2, h3, h4]
+
+/-! ### faults -/
+
+/-- no fault is reached: the faulted evaluation is the plain one -/
+theorem chainF_of_not_raises (fs : List Field) (h : raises fs = false) : chainF fs = chain fs := by
+  induction fs with
+  | nil => rfl
+  | cons f rest ih =>
+    cases hf : faultOf f with
+    | none =>
+      cases rest with
+      | nil => simp [chainF, chain, hf]
+      | cons g rest =>
+        by_cases ht : (outcome f).isTruthy = true
+        · have hr : raises (g :: rest) = false := by
+            simpa [raises, hf, ht] using h
+          simp only [chainF, chain, hf, ht, if_true, ih hr]
+        · simp [chainF, chain, hf, ht]
+    | eqRaises => simp [raises, hf] at h
+    | keyRaises => simp [raises, hf] at h
+
+/-- **C03_fault_propagates** (chain level): a reached fault makes the evaluation raise, having compared
+    only (some of) the fields given -/
+theorem chainF_of_raises (fs : List Field) (h : raises fs = true) :
+    (chainF fs).1 = .exc ∧ ∀ t ∈ (chainF fs).2, ∃ f ∈ fs, tag f = t := by
+  induction fs with
+  | nil => simp [raises] at h
+  | cons f rest ih =>
+    cases hf : faultOf f with
+    | none =>
+      have h2 : (outcome f).isTruthy = true ∧ raises rest = true := by
+        simpa [raises, hf] using h
+      cases rest with
+      | nil => simp [raises] at h2
+      | cons g rest =>
+        obtain ⟨i1, i2⟩ := ih h2.2
+        simp only [chainF, hf, h2.1, if_true]
+        refine ⟨i1, ?_⟩
+        intro t ht
+        rcases List.mem_cons.1 ht with e | e
+        · exact ⟨f, List.mem_cons_self, e.symm⟩
+        · obtain ⟨k, hk, hkt⟩ := i2 t e
+          exact ⟨k, List.mem_cons_of_mem _ hk, hkt⟩
+    | eqRaises =>
+      cases rest with
+      | nil => simp [chainF, hf]
+      | cons g rest => simp [chainF, hf]
+    | keyRaises =>
+      cases rest with
+      | nil => simp [chainF, hf]
+      | cons g rest => simp [chainF, hf]
+
+/-- a fault is reached iff the fields split into a fault-free truthy prefix and a faulting field -/
+theorem C03_fault_reached_iff (fs : List Field) :
+    raises fs = true ↔
+      ∃ pre f post, fs = pre ++ f :: post ∧ faultOf f ≠ .none ∧
+        ∀ g ∈ pre, faultOf g = .none ∧ (outcome g).isTruthy = true := by
+  induction fs with
+  | nil => simp [raises]
+  | cons a rest ih =>
+    cases ha : faultOf a with
+    | none =>
+      simp only [raises, ha, Bool.and_eq_true, ih]
+      constructor
+      · rintro ⟨hat, pre, f, post, rfl, hf, hp⟩
+        refine ⟨a :: pre, f, post, rfl, hf, ?_⟩
+        intro g hg
+        rcases List.mem_cons.1 hg with e | e
+        · subst e; exact ⟨ha, hat⟩
+        · exact hp g e
+      · rintro ⟨pre, f, post, he, hf, hp⟩
+        cases pre with
+        | nil =>
+          simp only [List.nil_append, List.cons.injEq] at he
+          exact absurd (he.1 ▸ ha) hf
+        | cons p pre =>
+          simp only [List.cons_append, List.cons.injEq] at he
+          obtain ⟨rfl, rfl⟩ := he
+          exact ⟨(hp a List.mem_cons_self).2, pre, f, post, rfl, hf,
+            fun g hg => hp g (List.mem_cons_of_mem _ hg)⟩
+    | eqRaises =>
+      simp only [raises, ha, true_iff]
+      exact ⟨[], a, rest, rfl, by simp [ha], by simp⟩
+    | keyRaises =>
+      simp only [raises, ha, true_iff]
+      exact ⟨[], a, rest, rfl, by simp [ha], by simp⟩
+
+/-- **C03_fault_propagates**: same class and a fault reached ⇒ the exception comes out of `__eq__`, `__ne__`,
+    `==` and `!=` alike (nothing is swallowed, nothing answered instead). -/
+theorem C03_fault_propagates (c : Case) (hg : generates c = true) (h : sameClass c.rhs = true)
+    (hr : raises (c.fields.filter participates) = true) :
+    (roundF c).eqDirect = .exc ∧ (roundF c).neDirect = .exc ∧ (roundF c).eqOp = .exc ∧ (roundF c).neOp = .exc := by
+  obtain ⟨h1, _⟩ := chainF_of_raises _ hr
+  have he : (eqMethodW chainF c).1 = .exc := by simp [eqMethodW, lookupEq_gen c hg, h, h1]
+  simp [roundF, roundW, eqOpW, neOpW, neMethodW_negation chainF c hg, he, h, derive]
+
+/-- **C03_later_comparison_on_its_own**: the second round never depends on the faults of the first -/
+theorem C03_later_comparison_on_its_own (c : Case) (g : Field → Fault) :
+    round { c with fields := c.fields.map (fun f => { f with fault := g f }) } = round c := by
+  have hp : ∀ f : Field, participates { f with fault := g f } = participates f := fun _ => rfl
+  have hfil : ∀ fs : List Field, (fs.map (fun f => { f with fault := g f })).filter participates
+      = (fs.filter participates).map (fun f => { f with fault := g f }) := by
+    intro fs
+    induction fs with
+    | nil => rfl
+    | cons f rest ih =>
+      simp only [List.map_cons, List.filter_cons, hp]
+      split <;> simp_all
+  have hch : ∀ fs : List Field, chain (fs.map (fun f => { f with fault := g f })) = chain fs := by
+    intro fs
+    induction fs with
+    | nil => rfl
+    | cons f rest ih =>
+      have ho : outcome { f with fault := g f } = outcome f := rfl
+      have htg : tag { f with fault := g f } = tag f := rfl
+      cases rest with
+      | nil => simp [chain, ho, htg]
+      | cons k rest =>
+        simp only [List.map_cons] at ih ⊢
+        simp only [chain, ih, ho, htg]
+  have e : eqMethodW chain { c with fields := c.fields.map (fun f => { f with fault := g f }) }
+      = eqMethodW chain c := by
+    simp only [eqMethodW, mroC, classLayer, generates, hfil, hch]; rfl
+  simp only [round, roundW, neMethodW, eqOpW, neOpW, e]
+  rfl
+
+theorem first_meets_spec (c : Case) (hg : generates c = true) : specFirst c (roundF c) = true := by
+  by_cases h : sameClass c.rhs = true
+  · by_cases hr : raises (c.fields.filter participates) = true
+    · obtain ⟨h1, h2, h3, h4⟩ := C03_fault_propagates c hg h hr
+      obtain ⟨_, hm⟩ := chainF_of_raises _ hr
+      have htr : onlyParticipating c (eqMethodW chainF c).2 = true := by
+        simp only [eqMethodW, lookupEq_gen c hg, h, if_true, onlyParticipating, List.all_eq_true]
+        intro t htm
+        obtain ⟨f, hf, hft⟩ := hm t htm
+        exact List.any_eq_true.2 ⟨f, hf, by simp [hft]⟩
+      have htr' : onlyParticipating c (roundF c).neTrace = true := by
+        simpa [roundF, roundW, neMethodW_negation chainF c hg] using htr
+      have htr'' : onlyParticipating c (roundF c).trace = true := by
+        simpa [roundF, roundW] using htr
+      simp [specFirst, h, hr, h1, h2, h3, h4, htr', htr'']
+    · have hr' : raises (c.fields.filter participates) = false := by simpa using hr
+      have e : roundF c = round c :=
+        roundW_same_class_ch c hg h (chainF_of_not_raises _ hr')
+      simp only [specFirst, h, hr', Bool.and_false, e]
+      exact round_meets_spec c hg
+  · have h' : sameClass c.rhs = false := by simpa using h
+    obtain ⟨h1, h2, h3, h4⟩ := otherClassW chainF c hg h'
+    obtain ⟨k1, k2, k3, k4⟩ := otherClassW chain c hg h'
+    have e : roundF c = round c := by
+      simp [roundF, round, roundW, h1, h2, h3, h4, k1, k2, k3, k4]
+    simp only [specFirst, h', Bool.false_and, e]
+    exact round_meets_spec c hg
+
+/-- **C03_model_meets_spec**: whenever attrs generates equality, the model satisfies the declarative
+    specification in both rounds and leaves nothing behind (no known-deviation hypothesis is needed). -/
+theorem C03_model_meets_spec (c : Case) (hw : wf c = true) : spec c (model c) = true := by
+  have hg : generates c = true := by
+    simp only [wf, Bool.and_eq_true] at hw; exact hw.2
+  simp [spec, model, first_meets_spec c hg, round_meets_spec c hg]
+
+/-- non-vacuity: a reached fault, after a truthy field and before a falsy one -/
+example : ∃ fs : List Field, raises fs = true ∧ (chainF fs).1 = .exc ∧ (chain fs).1 = .F :=
+  ⟨[{ name := "a", cmp := .unset, eq := .unset, raw := .T, keyed := .T, sameObj := false, hash := .unset,
+      hashDiffers := false, order := .unset, orderKeyed := .T, fault := .none },
+    { name := "b", cmp := .unset, eq := .key, raw := .T, keyed := .T, sameObj := false, hash := .unset,
+      hashDiffers := false, order := .unset, orderKeyed := .T, fault := .keyRaises },
+    { name := "c", cmp := .unset, eq := .unset, raw := .F, keyed := .T, sameObj := false, hash := .unset,
+      hashDiffers := false, order := .unset, orderKeyed := .T, fault := .none }], by decide⟩
 
 /-- non-vacuity: a well-formed case whose class body hand-writes both methods and whose ancestors bring
     a builtin's pair — equality is still generated (`eq=True`) and the specification is met. -/
 example : ∃ c, wf c = true ∧ c.own = ⟨.user .F, .user .F⟩ ∧ c.ancestors ≠ [] ∧ spec c (model c) = true :=
   ⟨{ fields := [{ name := "a", cmp := .unset, eq := .unset, raw := .T, keyed := .F,
-                  sameObj := false, hash := .t, hashDiffers := true, order := .key, orderKeyed := .F }],
+                  sameObj := false, hash := .t, hashDiffers := true, order := .key, orderKeyed := .F, fault := .none }],
      rhs := .same, clsEq := .t, autoDetect := true, own := ⟨.user .F, .user .F⟩,
      ancestors := [⟨.user .T, .user .F⟩], subLayer := ⟨.absent, .absent⟩,
      foreignLayer := ⟨.absent, .absent⟩, metaLayer := ⟨.user .T, .user .F⟩,
